@@ -258,6 +258,9 @@ def _maybe_gen(items, gen):
     return (x for x in items) if gen else list(items)
 
 
+SHARED = [0]
+
+
 def check_case(specs, op):
     """-> (nontrivial: bool, None | (key, what))"""
     import static_frame as sf
@@ -265,6 +268,20 @@ def check_case(specs, op):
     conts = [build(s) for s in specs]
     where = f'op={op} specs={[_short(s) for s in specs]}'
     n = len(specs)
+    if name in ('frame_concat_items', 'series_concat_items'):
+        # inputs with the same labels on the concatenated axis hold the SAME index object (as a frame and a frame derived from it do)
+        axis_ = op[1] if name == 'frame_concat_items' else 0
+        same_type = len({type(c_) for c_ in conts}) == 1
+        for k in range(1, n if same_type else 0):
+            for j in range(k):
+                ixj = conts[j].index if axis_ == 0 else conts[j].columns
+                ixk = conts[k].index if axis_ == 0 else conts[k].columns
+                if ixk is not ixj and len(ixk) and ixk.equals(ixj, compare_dtype=True, compare_class=True, compare_name=True):
+                    shared = conts[k].relabel(ixj) if axis_ == 0 else conts[k].relabel(columns=ixj)
+                    if (shared.index if axis_ == 0 else shared.columns) is ixj:
+                        conts[k] = shared
+                        SHARED[0] += 1
+                    break
 
     if name in ('frame_concat', 'frame_concat_items'):
         if name == 'frame_concat':
@@ -628,8 +645,28 @@ def family_empty_inputs(tier):
         yield specs, ('frame_overlay', True, False, c % 2 == 0)
 
 
+def family_shared_axis(tier):
+    """from_concat_items over frames that carry the same labels on the concatenated axis (check_case makes them hold ONE index object)"""
+    sets = LABELSETS_Q if tier == 'quick' else LABELSETS_T
+    c = 0
+    for n in (2, 3):
+        for catl in (['r0', 'r1'], ['r0'], ['r0', 'r1', 'r2']):
+            for si in range(len(sets)):
+                for axis in (0, 1):
+                    specs = []
+                    for k in range(n):
+                        c += 1
+                        oth = sets[(si + (k if c % 2 else 0)) % len(sets)]
+                        rows, cols = (catl, oth) if axis == 0 else (oth, catl)
+                        kk = _kinds_for(len(cols), c + k)
+                        specs.append(fspec(k, rows, cols, kk, layout=c % 7))
+                    for union in (True, False):
+                        c += 1
+                        yield specs, ('frame_concat_items', axis, union, 'unique', ('nan', 'str', 'none', 'zero')[c % 4], c % 2 == 0, c % 5 == 1)
+
+
 def cases(tier):
-    return itertools.chain(family_empty_inputs(tier), family_series(tier), family_align(tier), family_layout(tier), family_overlay(tier))
+    return itertools.chain(family_empty_inputs(tier), family_series(tier), family_align(tier), family_layout(tier), family_overlay(tier), family_shared_axis(tier))
 
 
 def run(repo, task):
@@ -639,7 +676,7 @@ def run(repo, task):
                       'cell by cell with the dictionary reference; families: label alignment (every tuple of label sets x unique/duplicated concat labels x axis x union x '
                       'index none/explicit/IndexAutoFactory x fill value; Series among the inputs; generator inputs; explicit aligned-axis labels), block layout (every pair of '
                       '(kinds, dtype-safe layout) of two 3-column frames x same/permuted/partial labels x axis), Series concat, overlay (every missing pattern of 2x2 inputs x '
-                      'row/column relation x kinds), inputs without any label on the aligned axis in leading / middle / trailing positions (2-4 inputs); non-trivial when the expected result holds >= 1 cell or a duplicate-label refusal is expected',
+                      'row/column relation x kinds), inputs without any label on the aligned axis in leading / middle / trailing positions (2-4 inputs), from_concat_items inputs holding one and the same index object on the concatenated axis; non-trivial when the expected result holds >= 1 cell or a duplicate-label refusal is expected',
                  bound=('quick' if tier == 'quick' else 'thorough') + ': <= 3 inputs, <= 3 labels per axis and input, label sets '
                        + repr(LABELSETS_Q if tier == 'quick' else LABELSETS_T) + ', kinds {int64,float64,bool,<U4,object,datetime64[D]}, fill in {nan,None,0,"F"}')
     for i, (specs, op) in enumerate(rep.shard(cases(tier))):
